@@ -301,6 +301,81 @@ example : exchangeOp ⟨4096, 8192⟩ false exStream ⟨"in", false⟩ [] =
     (poisoned exStream, .err .transport,
      [.sent .exchange ⟨"t0", "c0", false⟩, .recv .exchange .terr]) := by decide
 
+/-- `CallUnary` returns a batch only for a response accepted in full whose single data batch it is. -/
+theorem unary_returns_servers_batch {cfg : Cfg} {cc : Bool} {exp : Option String} {rs : List Resp}
+    {b : Batch} {ev : List Event} (h : unaryOp cfg cc exp rs = (.batch b, ev)) :
+    ∃ p, fetch cfg exp true (headResp rs) = .ok p ∧ p.batches = [b] ∧
+      ev = [Event.sent .unary noReq, Event.recv .unary (headResp rs)] := by
+  unfold unaryOp at h
+  by_cases hcc : cc = true
+  · simp [hcc] at h
+  · simp only [hcc, if_false, Bool.false_eq_true] at h
+    cases hf : fetch cfg exp true (headResp rs) with
+    | error e => simp [hf] at h
+    | ok p =>
+      simp only [hf] at h
+      cases hb : p.batches with
+      | nil => simp [hb] at h
+      | cons b1 tl =>
+        cases tl with
+        | cons b2 tl2 => simp [hb] at h
+        | nil =>
+          simp only [hb, Prod.mk.injEq, Res.batch.injEq] at h
+          exact ⟨p, rfl, by rw [hb, h.1], h.2.symm⟩
+
+/-- An exchange stream only comes into being with a cursor and a call token and without data:
+`OpenExchange` refuses every init response that lacks either or carries a data batch. -/
+theorem open_exchange_requires_tokens {cfg : Cfg} {cc : Bool} {o : OpenSpec} {rs : List Resp}
+    {s : Stream} {res : Res} {ev : List Event}
+    (h : openOp cfg cc o rs = (some s, res, ev)) (hx : o.exchange = true) :
+    s.token ≠ "" ∧ s.callToken ≠ "" ∧ s.pending = [] ∧ s.finished = false ∧ s.closed = false := by
+  unfold openOp at h
+  by_cases hcc : cc = true
+  · simp [hcc] at h
+  · simp only [hcc, if_false, Bool.false_eq_true] at h
+    cases hpost : post cfg (headResp rs) with
+    | error e => simp [hpost] at h
+    | ok ho =>
+      simp only [hpost] at h
+      cases hop : openParse o ho with
+      | error e => simp [hop] at h
+      | ok s0 =>
+        simp only [hop, Prod.mk.injEq, Option.some.injEq] at h
+        obtain ⟨hs, _, _⟩ := h
+        subst hs
+        unfold openParse at hop
+        simp only at hop
+        split at hop
+        · cases hop
+        · rename_i hdr rest hres
+          cases rest with
+          | nil => simp at hop
+          | cons st more =>
+            simp only at hop
+            cases hps : parseStream (some o.outSchema) false st with
+            | error e => simp [hps] at hop
+            | ok p =>
+              simp only [hps] at hop
+              split at hop
+              · cases hop
+              · split at hop
+                · cases hop
+                · rename_i hdata
+                  split at hop
+                  · cases hop
+                  · rename_i htok
+                    split at hop
+                    · cases hop
+                    · cases hop
+                      have hb : p.batches = [] := by
+                        by_cases hb : p.batches = []
+                        · exact hb
+                        · exact absurd ⟨hx, hb⟩ hdata
+                      have ht : ¬ (p.token = "" ∨ p.callToken = "") := fun hh => htok ⟨hx, hh⟩
+                      simp only [not_or] at ht
+                      refine ⟨ht.1, ht.2, hb, ?_, rfl⟩
+                      simp [ht.1]
+
 /-! ## 5. After an ambiguous turn no request is ever sent again -/
 
 /-- Histories that keep working on the same stream object (no new `Open…` call). -/
